@@ -6,7 +6,8 @@ let dispatch fn args = match fn, args with
                        (bytes_of_hex doc) (bytes_of_hex logm))
   | "sink", [i; o] -> hex_of_n (k_sink (n_of_hex i) (n_of_hex o))
   | "multi", [stream; js; codes] ->
-    string_of_nlist (k_multi (bool_of_str stream) (bool_of_str js) (nlist_of_string codes))
+    let l = k_multi (bool_of_str stream) (bool_of_str js) (nlist_of_string codes) in
+    if bool_of_str js then string_of_nlist l else string_of_nlist [List.hd l]
   | "exit", [ok] -> hex_of_z (exit_status (bool_of_str ok))
   | _ -> failwith ("unknown function " ^ fn)
 let () = main dispatch
